@@ -16,6 +16,12 @@ class Sentinel:
     def __repr__(self):
         return '<SENTINEL>'
 
+    def __eq__(self, o):
+        return isinstance(o, Sentinel)
+
+    def __hash__(self):
+        return 7919
+
 
 SENT = Sentinel()
 
@@ -106,6 +112,14 @@ def canon_sx(text):
     return ' '.join(out)
 
 
+def fresh(v):
+    """a distinct object for every use of a container value: pickle's memo makes the bytes of a key
+    depend on which argument objects are shared, which is not a fact about the values"""
+    if isinstance(v, tuple):
+        return tuple([fresh(x) for x in v])
+    return v
+
+
 # ---------------------------------------------------------------- signatures
 def gen_sig(rng, allow_kwonly=True):
     np_ = rng.choice([0, 1, 1, 2, 2, 3, 4])
@@ -113,12 +127,12 @@ def gen_sig(rng, allow_kwonly=True):
     ndef = rng.randint(0, np_)
     params = []
     for i, n in enumerate(names):
-        params.append((n, rng.choice(VALUES) if i >= np_ - ndef else inspect.Parameter.empty))
+        params.append((n, fresh(rng.choice(VALUES)) if i >= np_ - ndef else inspect.Parameter.empty))
     varargs = rng.random() < 0.4
     kwonly = []
     if allow_kwonly and rng.random() < 0.4:
         for n in rng.sample(KWONLY, rng.randint(1, 2)):
-            kwonly.append((n, rng.choice(VALUES) if rng.random() < 0.6 else inspect.Parameter.empty))
+            kwonly.append((n, fresh(rng.choice(VALUES)) if rng.random() < 0.6 else inspect.Parameter.empty))
     varkw = rng.random() < 0.4
     return {'params': params, 'varargs': varargs, 'kwonly': kwonly, 'varkw': varkw}
 
@@ -161,17 +175,10 @@ def sx_ign(ignore):
 
 
 # ---------------------------------------------------------------- calls
-def fresh(v):
-    """a distinct object for every use of a container value: pickle's memo makes the bytes of a key
-    depend on which argument objects are shared, which is not a fact about the values"""
-    if isinstance(v, tuple):
-        return tuple([fresh(x) for x in v])
-    return v
-
-
 def gen_binding(rng, sig):
     """a full assignment: values for every parameter, some extra positionals / keywords"""
-    vals = {n: fresh(rng.choice(VALUES)) for n, _ in sig['params'] + sig['kwonly']}
+    vals = {n: (fresh(d) if (d is not inspect.Parameter.empty and rng.random() < 0.35) else fresh(rng.choice(VALUES)))
+            for n, d in sig['params'] + sig['kwonly']}
     extra_pos = [fresh(rng.choice(VALUES)) for _ in range(rng.choice([0, 0, 1, 2]))] if sig['varargs'] else []
     extra_kw = {}
     if sig['varkw']:
